@@ -255,21 +255,37 @@ func suffixOps(r *rand.Rand, data []byte, B int) []map[string]any {
 // (so that stale dictionary entries of the first can produce matches in the
 // second): pieces of `a` in another order, mixed with fresh bytes.
 func relatedInput(r *rand.Rand, a []byte, n int) []byte {
-	if len(a) < 4 || r.Intn(4) == 0 {
+	if len(a) < 4 || r.Intn(5) == 0 {
 		b, _ := genInput(r, n)
 		return b
 	}
 	var out []byte
-	for len(out) < n {
-		if r.Intn(4) != 0 {
-			s := r.Intn(len(a) - 2)
-			l := 2 + r.Intn(12)
-			if s+l > len(a) {
-				l = len(a) - s
+	switch r.Intn(3) {
+	case 0: // the same data again (stale entries point at equal content)
+		for len(out) < n {
+			out = append(out, a...)
+		}
+	case 1: // the same data shifted by a few bytes (stale entries point ahead of equal content)
+		k := 1 + r.Intn(9)
+		if k >= len(a) {
+			k = 1
+		}
+		for len(out) < n {
+			out = append(out, a[k:]...)
+			out = append(out, a[:k]...)
+		}
+	default: // pieces in another order, mixed with fresh bytes
+		for len(out) < n {
+			if r.Intn(4) != 0 {
+				s := r.Intn(len(a) - 2)
+				l := 2 + r.Intn(12)
+				if s+l > len(a) {
+					l = len(a) - s
+				}
+				out = append(out, a[s:s+l]...)
+			} else {
+				out = append(out, byte(r.Intn(4)))
 			}
-			out = append(out, a[s:s+l]...)
-		} else {
-			out = append(out, byte(r.Intn(4)))
 		}
 	}
 	return out[:n]
@@ -341,7 +357,7 @@ func genTwoRunReset(seed int64, n int, tier string) []Script {
 				if k > len(data) {
 					k = len(data)
 				}
-				reset = map[string]any{"op": "reset", "data": B2(data[:k]), "cap": pickInt(r, 0, 3, 7, 8, 20)}
+				reset = map[string]any{"op": "reset", "data": B2(data[:k]), "cap": pickInt(r, 0, 3, 7, 8, 20, B+8)}
 				rest = data[k:]
 				tags = append(tags, "resetdata")
 			}
